@@ -87,7 +87,7 @@ def tsv_wrong_count(c0: str, c1: str, extra: bool) -> bool:
 
 def csv_roundtrip(c0: str, c1: str, kind: bool) -> bool:
     """
-    pre: len(c0) <= 2 + EXTRA and len(c1) <= 2 + EXTRA
+    pre: len(c0) <= 2 and len(c1) <= 2
     pre: all(ch in 'a," ' for ch in c0 + c1)
     post: _
     """
@@ -274,7 +274,7 @@ def tsv_wrong_count_twin(c0: str, c1: str, extra: bool) -> bool:
 
 def csv_roundtrip_twin(c0: str, c1: str, kind: bool) -> bool:
     """
-    pre: len(c0) <= 2 + EXTRA and len(c1) <= 2 + EXTRA
+    pre: len(c0) <= 2 and len(c1) <= 2
     pre: all(ch in 'a," ' for ch in c0 + c1)
     post: not _
     """
